@@ -16,7 +16,7 @@ from sa.model import (
     processor_classes,
     superstep_funcs,
 )
-from sa.variants import Variant, replace_once, sub_first, sub_once
+from sa.variants import Variant, chain, replace_once, sub_first, sub_once
 
 ID = "C13"
 EXPLANATION = (
@@ -25,7 +25,8 @@ EXPLANATION = (
     "CFG path, and after a failure control returns to the delivery loop so the other processors still receive the event; (R2) every dispatcher "
     "constructed by the runners is non-strict; (R3) no processor method is called anywhere outside the dispatcher; (R4) code guarded by the "
     "'active' flag in the supersteps and the run-start/run-end helpers only constructs and emits events — it performs no state write and no "
-    "control transfer; (R5) top-level shutdown is reached from a finally block."
+    "control transfer; (R5) top-level shutdown is reached from a finally block; (R6) the dispatcher iterates its own copy of the processor list and no "
+    "method other than the constructor modifies it, so a failing processor cannot make another one miss events."
 )
 NOT_DECIDED = (
     "That a processor which mutates objects reachable from an event (e.g. a list-valued decision) cannot influence the run; timing effects of slow "
@@ -46,6 +47,7 @@ def run(ctx) -> None:
     rep.rule("C13.R3", "no processor method is called outside events/dispatcher.py", floor=1)
     rep.rule("C13.R4", "code guarded by the 'active' flag only builds and emits events", floor=6)
     rep.rule("C13.R5", "dispatcher shutdown of a top-level call happens in a finally block", floor=4)
+    rep.rule("C13.R6", "the list of processors is fixed after construction (own copy, never modified by a dispatcher method)", floor=5)
     rep.assume("logging calls (logger.*), warnings.warn and sys.exc_info do not raise")
 
     disp = db.cls("events.dispatcher.EventDispatcher")
@@ -60,12 +62,28 @@ def run(ctx) -> None:
     if strict_attr is None:
         strict_attr = "self._strict"
 
+    # ---- R6: the delivery list is fixed after construction ---------------------
+    from sa.effects import Effects, fmt_effect
+    from sa.summaries import NoRaise
+
+    nr_pred = NoRaise(db, logging_no_raise).predicate()
+    E = Effects(db)
+    proc_attr = "_processors"
+    for m in disp.methods.values():
+        if m.name == "__init__":
+            continue
+        bad = [e for e in E.writes(m, "self", include_unknown=False) if e.path == (proc_attr,)]
+        rep.add("C13.R6", f"{m.qname}:processor-list", not bad, m.loc(), "does not modify the processor list" if not bad else f"the processor list is modified while events are being delivered ({fmt_effect(bad[0])}): removing/adding an entry during iteration makes another processor miss events")
+    init_m = disp.methods.get("__init__")
+    copies = init_m is not None and any(isinstance(n, (ast.Assign, ast.AnnAssign)) and "_processors" in src(n.targets[0] if isinstance(n, ast.Assign) else n.target) and "list(" in src(n.value) for n in walk_local(init_m.node))
+    rep.add("C13.R6", f"{disp.qname}:own-copy", copies, disp.loc(), "the dispatcher iterates its own copy of the caller's processor list" if copies else "the dispatcher iterates the caller's list object (the caller or a processor can change it mid-run)")
+
     # ---- R1 -----------------------------------------------------------------
     for m in disp.methods.values():
         sites = [c for c in db.calls_in(m) if is_processor_call(db, c, m)]
         if not sites:
             continue
-        cfg = ctx.cfg(m, logging_no_raise)
+        cfg = ctx.cfg(m, nr_pred)
         ef = refine_constants(cfg, both(specialize({strict_attr: False}), exc_filter(_exc_only)))
         esc = reaches(cfg.entry, cfg.exit_raise, ef)
         for c in sites:
@@ -247,6 +265,9 @@ VARIANTS = [
     Variant("emit-break-after-failure", DISP, sub_once(r"(def emit\(.*?exc_info=True,\n                \))", r"\1\n                break"), {"C13.R1"}),
     Variant("shutdown-raises-first-error-nonstrict", DISP, sub_once(r"if self\._strict:\n                    if first_error is None:\n                        first_error = sys.exc_info\(\)", "if first_error is None:\n                    first_error = sys.exc_info()\n                if self._strict:\n                    pass"), {"C13.R1"}),
     Variant("twin-emit-extract-log", DISP, sub_once(r"(def emit\(.*?)logger\.warning\(\n                    \"EventProcessor %s failed on %s\",\n                    processor,\n                    type\(event\).__name__,\n                    exc_info=True,\n                \)", r'\1logger.warning("EventProcessor %s failed", processor, exc_info=True)'), set()),
+    Variant("drop-failing-processor", DISP, sub_first(r"(def emit\(.*?exc_info=True,\n                \))", r"\1\n                self._processors = [p for p in self._processors if p is not processor]"), {"C13.R6"}),
+    Variant("share-callers-list", DISP, replace_once("self._processors: list[EventProcessor] = list(processors) if processors else []", "self._processors: list[EventProcessor] = processors if processors else []"), {"C13.R6"}),
+    Variant("twin-count-failures", DISP, chain(replace_once("        self._strict = strict\n", "        self._strict = strict\n        self._failed = 0\n"), sub_first(r"(def emit\(.*?exc_info=True,\n                \))", r"\1\n                self._failed += 1")), set()),
     Variant("runner-strict-dispatcher", "src/hypergraph/runners/sync/runner.py", replace_once("return EventDispatcher(processors)", "return EventDispatcher(processors, strict=True)"), {"C13.R2"}),
     Variant("superstep-direct-processor-call", "src/hypergraph/runners/sync/superstep.py", replace_once("            if active:\n                dispatcher.emit(start_evt)\n\n            node_start", "            if active:\n                for p in dispatcher._processors:\n                    p.on_event(start_evt)\n\n            node_start"), {"C13.R3", "C13.R4"}),
     Variant("active-guard-writes-state", "src/hypergraph/runners/sync/superstep.py", replace_once("                if active:\n                    route_evt = build_route_decision_event(run_id, run_span_id, node, graph, new_state)\n                    if route_evt is not None:\n                        dispatcher.emit(route_evt)\n                    dispatcher.emit(build_node_end_event(run_id, node_span_id, run_span_id, node, graph, duration_ms))", "                if active:\n                    route_evt = build_route_decision_event(run_id, run_span_id, node, graph, new_state)\n                    if route_evt is not None:\n                        dispatcher.emit(route_evt)\n                    dispatcher.emit(build_node_end_event(run_id, node_span_id, run_span_id, node, graph, duration_ms))\n                    new_state.routing_decisions.pop(node.name, None)"), {"C13.R4"}),
